@@ -51,6 +51,12 @@ def norm_cond(c):
         inner = strip(s['inner'][0])
         if inner.get('kind') == 'UnaryOperator' and inner.get('opcode') == '!':
             return norm_cond(inner['inner'][0])
+        ni = norm_cond(inner)
+        if ni is not inner:
+            sn = strip(ni)
+            if sn.get('kind') == 'UnaryOperator' and sn.get('opcode') == '!':
+                return sn['inner'][0]           # !(x == 0) -> !!x -> x
+            return {'kind': 'UnaryOperator', 'opcode': '!', 'isPostfix': False, 'type': {'qualType': 'int'}, 'inner': [ni], '_line': c.get('_line')}
         if inner.get('kind') == 'BinaryOperator' and inner.get('opcode') in _FLIP and _is_int(inner['inner'][0]) and _is_int(inner['inner'][1]):
             return negate(inner)
     return c
